@@ -71,6 +71,11 @@ Example C06_nonvacuous :
   dest_of false MSG_BOOST_STAT [BIDIB_BST_STATE_OFF_SHORT] = ToErrQ /\ dest_of false MSG_BOOST_STAT [BIDIB_BST_STATE_ON] = ToState.
 Proof. vm_compute. repeat split. Qed.
 
+(* a message in a user queue has exactly one consumer, the application: no function of the library calls the public readers or
+   pops one of the two user queues (count regenerated from src/**/*.c on every run) *)
+Theorem C06_user_queues_not_consumed_internally : internal_user_queue_consumers = 0.
+Proof. exact eq_refl. Qed.
+
 (* readers racing the receiver: the three receiver-filled queues are touched only under their own mutex on every
    path of every public function except the two start functions, which create the queues before any thread exists
    (thread-safe or not: the receiver thread runs alongside bidib_send_sys_reset and bidib_stop too) and of the library's own threads; lock programs regenerated from the source on every run *)
